@@ -293,6 +293,7 @@ class RouteBehaviour(simgen.Behaviour):
 
 class C11(SimCheck):
     prop = "C11"
+    allow_tolerant = False     # its oracle samples positions in the after-step hooks, one round per event
     level_text = ("Theorems over the reals for the per-node update (no target: fixed; arrival: the target itself, for every "
                   "scalar type; partial step: the point of the segment at speed*dt from the start; moved = min(speed*dt, d); "
                   "trajectory by induction; commands change only target/speed), tied to the code by bit-exact differential "
@@ -439,11 +440,17 @@ class C11(SimCheck):
     def generate(self, seed, tier):
         m = self.exact_quick if tier == "quick" else self.exact_thorough
         for i in range(m):
-            yield self.exact_case(stable_hash(self.prop, "exact", seed, i))
+            yield self.plain(self.exact_case(stable_hash(self.prop, "exact", seed, i)))
         m = self.route_quick if tier == "quick" else self.route_thorough
         for i in range(m):
-            yield self.route_case(stable_hash(self.prop, "route", seed, i))
+            yield self.plain(self.route_case(stable_hash(self.prop, "route", seed, i)))
         yield from super().generate(seed, tier)
+
+    @staticmethod
+    def plain(scn):
+        scn.pop("tolerant", None)
+        scn.pop("escapeAt", None)
+        return scn
 
     def behaviour(self, case):
         if case.get("frozen"):
